@@ -721,6 +721,13 @@ Matrix Matrix::Inverse() const
 		// Gauss Jordan elimination
 		for(unsigned int i = 0; i < N; i++)
 		{
+			// Partial pivoting: move the row with the largest entry of column i (on or below the diagonal) to row i.
+			unsigned int pivot = i;
+			for(unsigned int r = i + 1; r < N; r++)
+				if(fabs(A[r][i]) > fabs(A[pivot][i]))
+					pivot = r;
+			if(pivot != i)
+				std::swap(A[i], A[pivot]);
 			if(A[i][i] == 0)
 			{
 				std::cerr << "Error in libphysica::Matrix::Inverse(): Diagonal element is zero." << std::endl;
